@@ -568,12 +568,20 @@ MISC = {
     "await-indexed-bit": (True, ["await self.w[self.x]", "self.o <<= True"]),
     "await-indexed-bit-later": (True, ["self.o2 <<= 1", "await self.a", "await self.w[self.x]", "self.o <<= True"]),
     "ifexpr-temp-in-await": (True, ["t = self.a | self.b", "self.o <<= t", "await cohdl.expr(self.a & self.b)", "self.o2 <<= 2"]),
-    "while-continue-temp": (True, ["while True:", "    t = self.a ^ self.b", "    await self.a", "    if self.b:", "        continue", "    self.o <<= self.a"]),
+    "while-continue-temp-unused": (True, ["while True:", "    t = self.a ^ self.b", "    await self.a", "    if self.b:", "        continue", "    self.o <<= self.a"]),
+    # (is_async, body, must_reject): value computed in one state consumed in another / outside the process
+    "while-true-continue-temp-across-await": (True, ["while True:", "    t = self.a ^ self.b", "    await self.a", "    if self.b:", "        continue",
+                                                    "    self.o <<= t"], True),
+    "while-true-temp-across-await": (True, ["while True:", "    t = self.a ^ self.b", "    await self.a", "    self.o <<= t"], True),
+    "while-cond-continue-temp-across-await": (True, ["while self.a:", "    t = self.a ^ self.b", "    await self.b", "    if self.x[0]:", "        continue",
+                                                    "    self.o <<= t"], True),
+    "always-expr-reads-bit-of-process-intermediate": (False, ["t = self.w | self.w", "self.o <<= cohdl.always(t[0] | self.a)"], True),
+    "always-expr-reads-slice-of-process-intermediate": (False, ["t = self.w | self.w", "self.o2 <<= cohdl.always((t[1:0] | self.w[3:2]).unsigned)"], True),
 }
 
 
 def render_misc(name):
-    is_async, body = MISC[name]
+    is_async, body = MISC[name][:2]
     L = list(MISC_HDR)
     L.append("        @std.sequential(std.Clock(self.clk))")
     L.append("        async def proc():" if is_async else "        def proc():")
@@ -584,10 +592,11 @@ def render_misc(name):
 
 def analyse_misc(name):
     src = render_misc(name)
+    must = len(MISC[name]) > 2 and MISC[name][2]
     res, _ = compile_source(src)
     if not res.ok:
-        return {"status": "rejected", "must": False, "error": res.error}
-    out = {"status": "accepted", "must": False, "witness": None, "src": src, "problems": [], "evals": 0}
+        return {"status": "rejected", "must": must, "error": res.error}
+    out = {"status": "accepted", "must": must, "witness": "a value computed in one state / process is consumed in another", "src": src, "problems": [], "evals": 0}
     try:
         d = compile_design(res.vhdl, poison=True)
     except VhdlSyntaxError as e:
@@ -595,6 +604,9 @@ def analyse_misc(name):
         return out
     except Unsupported as e:
         return {"status": "tool", "what": str(e), "src": src}
+    if d.findings:
+        out["problems"].append(("static-" + d.findings[0].rule, repr(d.findings[0])))
+        return out
     sim = d.sim(init=dict(clk=0, a=0, b=0, x=0, w=0))
     del sim.PR[:]
     seen = {sim.snapshot()}
